@@ -45,7 +45,8 @@ SNIPPETS = {
     "undefined_operand": ["lda.w nosuchsym", "jmp.w nosuchsym"],
     "undefined_data": [".dw nosuchsym", ".db 1, nosuchsym"],
     "bad_width": ["lda.l #0x123456", "jmp.b 0x12", "rep.w #0x30"],
-    "bad_mode": ["ldx (0x12),y", "stz [0x10]", "nop #1", "lda.b #0x10, x", "ldx.w #0x1234, y"],
+    "bad_mode": ["ldx (0x12),y", "stz [0x10]", "nop #1", "lda.b #0x10, x", "ldx.w #0x1234, y",
+                 "lda [0x10,y]", "sta [0x10,x],y", "jmp [0x1000,x]"],
     "branch_range": ["bra zfar\n.ascii '" + "x" * 200 + "'\nzfar:"],
     "text_without_table": [".text 'ab'"],
 }
